@@ -558,5 +558,6 @@ def run(ctx):
     ctx.run_rule("R6.10", "line parser: `$ ` starts and `> ` continues a command (exact prefixes), body text stored unmodified, expectation / exit-code lines unmodified (shared with C07 R7.2) [E-FLOW]", r6_10, floor=4)
     ctx.run_rule("R6.11", "total parsing: no unwrap/expect on a fallible text conversion in parsers / expectation / rules / config (shared with C07 R7.5) [E-SITE]", c07.total_parsing_rules, floor=5)
     ctx.run_rule("R6.12", "fence info string: configuration = from the first `{` on, language = what precedes it; no other split [E-TABLE of accepted forms]", r6_12, floor=3)
+    ctx.run_rule("R6.13", "parser state hygiene: every Ok path of LineParser::end_testcase flushes the state or resets the parsed exit code (shared with C07 R7.6) [E-PATH must-pass]", c07.parser_state_rules, floor=2)
     ctx.run_rule("R6.9", "closing-fence predicate is a prefix test against the opener's fence (equality would reject longer closing fences) [E-TABLE of accepted forms]", r6_9, floor=3)
     ctx.run_rule("R6.8", "read_file normalises CRLF through replace_crlf before parsing [E-FLOW]", r6_8, floor=1)
